@@ -18,8 +18,10 @@
 #include <time.h>
 #include <unistd.h>
 #include <dirent.h>
+#include <sys/file.h>
+#include <sys/uio.h>
 
-enum { K_CLOCK = 0, K_ENV = 1, K_FS = 2, K_CWD = 3, K_PID = 4, K_N = 8 };
+enum { K_CLOCK = 0, K_ENV = 1, K_FS = 2, K_CWD = 3, K_PID = 4, K_STDIO = 5, K_LOCK = 6, K_N = 8 };
 
 /* per thread: a library call is bracketed on the calling thread; other threads' requests are theirs */
 static __thread volatile unsigned long counts[K_N];
@@ -205,4 +207,37 @@ pid_t getpid(void) {
     REAL(pid_t, getpid, void)
     __sync_fetch_and_add(&counts[K_PID], 1);
     return real();
+}
+
+/* standard streams: a library call that writes to (or reads from) descriptors 0-2 touches process-global
+ * state shared with every other thread (and can block on it) */
+ssize_t write(int fd, const void *buf, size_t n) {
+    REAL(ssize_t, write, int, const void *, size_t)
+    if (fd >= 0 && fd <= 2) __sync_fetch_and_add(&counts[K_STDIO], 1);
+    return real(fd, buf, n);
+}
+
+ssize_t writev(int fd, const struct iovec *iov, int cnt) {
+    REAL(ssize_t, writev, int, const struct iovec *, int)
+    if (fd >= 0 && fd <= 2) __sync_fetch_and_add(&counts[K_STDIO], 1);
+    return real(fd, iov, cnt);
+}
+
+ssize_t read(int fd, void *buf, size_t n) {
+    REAL(ssize_t, read, int, void *, size_t)
+    if (fd >= 0 && fd <= 2) __sync_fetch_and_add(&counts[K_STDIO], 1);
+    return real(fd, buf, n);
+}
+
+/* advisory locks are shared between all threads and processes that open the same file */
+int flock(int fd, int op) {
+    REAL(int, flock, int, int)
+    __sync_fetch_and_add(&counts[K_LOCK], 1);
+    return real(fd, op);
+}
+
+int lockf(int fd, int cmd, off_t len) {
+    REAL(int, lockf, int, int, off_t)
+    __sync_fetch_and_add(&counts[K_LOCK], 1);
+    return real(fd, cmd, len);
 }
